@@ -34,7 +34,7 @@ from typing import Any, Callable
 from . import boot
 
 NSHARDS = int(os.environ.get("VERIF_SHARDS", "16"))
-CASE_TIMEOUT_S = 30.0  # only triggers a deterministic re-examination; never a verdict
+CASE_TIMEOUT_S = 120.0  # only triggers a deterministic re-examination; never a verdict
 
 
 class CaseTimeout(BaseException):
@@ -318,6 +318,16 @@ def shrink_case(mod, case, sig: str, max_evals: int) -> Any:
     spec = getattr(mod, "SHRINK", {"text": ["src"]})
     budget = [max_evals]
     best = copy.deepcopy(case)
+    # expensive cases (documents at scale): bound the minimisation to about a minute of evaluations; the
+    # verdict never depends on how far a case was minimised
+    _t0 = time.time()
+    try:
+        mod.check(best)
+    except BaseException:  # noqa: BLE001
+        pass
+    _dt = time.time() - _t0
+    if _dt > 0.15:
+        budget[0] = max(3, min(max_evals, int(60 / _dt)))
 
     def still(c) -> bool:
         signal.setitimer(signal.ITIMER_REAL, CASE_TIMEOUT_S)
